@@ -15,7 +15,8 @@ RULE = ("(1) type-flow programs: a producer expression of type A (12 types: Int,
         "for, Some / Ok + match, generic identity function, generic struct field, annotated closure call / argument, "
         "dict + get, if / else, re-assignment, concrete pass-through function and method, while body, early return "
         "from a helper) into a consumer that needs type B (annotated parameter, let hint, operator, method, return "
-        "value, condition, loop, pattern, field, call) - A = B in 40% of cases, otherwise a different type; plus "
+        "value, the result and an early `return` of a function literal, condition, loop, pattern, field, call), the whole "
+        "flow written inside a function or as top-level statements - A = B in 40% of cases, otherwise a different type; plus "
         "name / arity / exhaustiveness slips at the consumer (extra / missing argument, unknown method, field, "
         "variable, function, a missing match arm, calling a non-function, reading a top-level `let` from a function). "
         "(2) G-core well-typed programs and their single-span mutants (an expression replaced by a literal of another "
@@ -213,6 +214,10 @@ def consumers(b):
         "let_hint": lambda e: [f"let z: {t['hint']} = {e}", "println(string_repr(z))"],
         "return": None,        # handled by the program builder: the flow function returns the value
         "list_elem": lambda e: [f"let zs: List<{t['hint']}> = [{e}]", "println(string_repr(zs))"],
+        # an early `return` inside a function literal whose return type is B
+        "lambda_return": lambda e: [f"let zr = fun(): {t['hint']} {{", f"  if True {{ return {e} }}", f"  {t['prods'][0]}", "}",
+                                    "println(string_repr(zr()))"],
+        "lambda_result": lambda e: [f"let zr = fun(): {t['hint']} {{ {e} }}", "println(string_repr(zr()))"],
         "closure_param": lambda e: [f"let zc = fun(p: {t['hint']}): Unit {{ println(string_repr(p)) }}", f"zc({e})"],
     }
     if b == "Int":
@@ -298,7 +303,11 @@ def gen_flow(r):
     slip = r.choice(SLIPS) if mode == "slip" else None
     cons_kinds = sorted(k for k in consumers(b))
     cons = r.choice(cons_kinds)
-    return {"a": a, "b": b, "mode": mode, "chain": chain, "prod": prod, "cons": cons, "slip": slip,
+    # where the flow lives: inside `fun flow()` (checked against its return type) or as top-level statements
+    place = r.choice(["fun", "fun", "toplevel"])
+    if cons == "return" or slip == "toplevel_let":
+        place = "fun"
+    return {"a": a, "b": b, "mode": mode, "chain": chain, "prod": prod, "cons": cons, "slip": slip, "place": place,
             "picks": [r.int(0, (1 << 16) - 1) for _ in range(12)]}
 
 
@@ -346,6 +355,8 @@ def build_flow(case):
         # the value is returned out of (possibly nested) statements; a default of type B ends the function
         src += f"fun flow(): {TYPES[b]['hint']} {{\n" + "".join("  " + x + "\n" for x in body) + \
                f"  {TYPES[b]['prods'][0]}\n}}\nprintln(string_repr(flow()))\n"
+    elif case.get("place") == "toplevel":
+        src += "".join(x + "\n" for x in body)
     else:
         src += "fun flow(): Unit {\n" + "".join("  " + x + "\n" for x in body) + "}\nflow()\n"
     return src
